@@ -52,7 +52,7 @@ type PureCase struct {
 	Reps    int      `json:"reps"`
 }
 
-var addrRE = regexp.MustCompile(`0x[0-9a-f]{6,}`)
+var addrRE = regexp.MustCompile(`(?i)0x[0-9a-f]{6,}`)
 
 // outcome renders what an evaluation produced; heap addresses (which appear when a pointer
 // nested in a struct is formatted into a string) are masked, they are not part of the value.
